@@ -11,6 +11,7 @@ use crate::{
     message::{
         rpc::{
             self,
+            error::Severity,
             operation::{self, params::Required},
             Errors, IntoResult, Operation,
         },
@@ -415,7 +416,11 @@ impl ReadXml for Reply {
                     loop {
                         match reader.read_resolved_event()? {
                             (ResolveResult::Bound(xmlns::BASE), Event::Empty(tag))
-                                if tag.local_name().as_ref() == b"ok" && this.is_none() =>
+                                if tag.local_name().as_ref() == b"ok"
+                                    && this.is_none()
+                                    && errors
+                                        .iter()
+                                        .all(|err| err.severity() != Severity::Error) =>
                             {
                                 tracing::debug!(?tag);
                                 this = Some(Self::Ok);
